@@ -307,7 +307,8 @@ int main(int argc, char** argv) {
     run.rule = "E3: catalogue of 19 shapes (HalfSpace, Sphere, 5 Ellipsoids incl. two-equal/all-equal/thin, Cylinder, 2 Tori, 2 Bricks, 3 SmoothHeightMaps, "
                "4 TriangleMeshes) x complete query lattices (symmetric 7^3 [9^3 thorough] lattice through the origin + generically shifted 5^3 [7^3] lattice + "
                "degenerate points: centre, axes, on-surface, focal/medial points) x 29 directions (26 lattice + 3 generic) x ray origins; a case = "
-               "(shape, query); non-trivial = the reference is defined (query not in a tolerance band of the surface for sign clauses)";
+               "(shape, query); non-trivial = the reference is defined (query not in a tolerance band of the surface for sign clauses); plus E2 section 'setters': "
+               "6 kinds with parameter setters x 4 setter histories (<= 2 calls, also on a handle copy) x the whole query battery, compared exactly with a freshly constructed object";
     run.assumptions = {"continuous parameters (sizes, lattice scale) come from 3 fixed value sets selected by VERIF_SEED; thorough uses a finer lattice",
                        "no accuracy is documented for the iterative ellipsoid solver: the bound is 100x the worst residual measured on the unchanged tree",
                        "queries inside a tolerance band of the surface / grazing rays / rays starting on the surface are counted as unspecified, not compared",
@@ -763,6 +764,102 @@ int main(int argc, char** argv) {
         if (idx % 4999 == 0) run.sample(where() + " -> hit=" + std::to_string(hit) + (hit ? " dist=" + sd(dist) : ""));
     });
     mark("ray");
+
+    // =================================================================================== section 7: setter histories (E2)
+    // Every parameter setter of the catalogue (Sphere/Cylinder::setRadius, Ellipsoid::setRadii, Brick::setHalfLengths,
+    // Torus::setTorusRadius/setTubeRadius) x every history of <= 2 setter calls ending in the catalogue parameters,
+    // also applied to a handle copy: the object reached through the history must answer the whole query battery
+    // exactly like an object constructed directly with those parameters (which sections 1-6 compare with the references).
+    std::vector<int> setShapes;
+    for (int s = 0; s < kNumShapes; ++s) { const std::string k = makeShape(s, seed).kind; if (k == "Sphere" || k == "Ellipsoid" || k == "Cylinder" || k == "Torus" || k == "Brick") setShapes.push_back(s); }
+    const int kNumHist = 4;
+    static const char* histNames[kNumHist] = {"ctor(other).set(final)", "ctor(final).set(other).set(final)", "copy-of(ctor(other)).set(final)", "ctor(other).set(other2).set(final)"};
+    run.parallel("setters", (int64_t)setShapes.size() * kNumHist * NVS, [&](int64_t idx0) {
+        const int64_t per = (int64_t)setShapes.size() * kNumHist; const long seed = vseeds[idx0 / per]; const int64_t idx = idx0 % per;
+        Shape& S = makeShape(setShapes[idx / kNumHist], seed); const int h = (int)(idx % kNumHist);
+        auto where = [&] { return S.name + " valueset=" + std::to_string(seed) + " history=" + histNames[h]; };
+        auto rp = [&] { return run.replayHeader() + "shape=" + S.name + "\nhistory=" + histNames[h] + "\n"; };
+        // parameters: final = catalogue values; other / other2 = distinct generic values
+        auto ctor = [&](int which) -> ContactGeometry* {   // which: 0 final, 1 other, 2 other2
+            const double f = which == 0 ? 1 : which == 1 ? 1.37 : 0.61; const Vec3 fv = which == 0 ? Vec3(1) : which == 1 ? Vec3(1.37, 0.83, 1.21) : Vec3(0.61, 1.9, 0.77);
+            if (S.kind == "Sphere") return new ContactGeometry::Sphere(S.r * f);
+            if (S.kind == "Cylinder") return new ContactGeometry::Cylinder(S.r * f);
+            if (S.kind == "Ellipsoid") return new ContactGeometry::Ellipsoid(Vec3(S.radii[0] * fv[0], S.radii[1] * fv[1], S.radii[2] * fv[2]));
+            if (S.kind == "Brick") return new ContactGeometry::Brick(Vec3(S.ext[0] * fv[0], S.ext[1] * fv[1], S.ext[2] * fv[2]));
+            return new ContactGeometry::Torus(S.R * fv[0], S.r * fv[1]);
+        };
+        auto set = [&](ContactGeometry& g, int which) {
+            const double f = which == 0 ? 1 : which == 1 ? 1.37 : 0.61; const Vec3 fv = which == 0 ? Vec3(1) : which == 1 ? Vec3(1.37, 0.83, 1.21) : Vec3(0.61, 1.9, 0.77);
+            if (S.kind == "Sphere") ContactGeometry::Sphere::updAs(g).setRadius(S.r * f);
+            else if (S.kind == "Cylinder") ContactGeometry::Cylinder::updAs(g).setRadius(S.r * f);
+            else if (S.kind == "Ellipsoid") ContactGeometry::Ellipsoid::updAs(g).setRadii(Vec3(S.radii[0] * fv[0], S.radii[1] * fv[1], S.radii[2] * fv[2]));
+            else if (S.kind == "Brick") ContactGeometry::Brick::updAs(g).setHalfLengths(Vec3(S.ext[0] * fv[0], S.ext[1] * fv[1], S.ext[2] * fv[2]));
+            else { ContactGeometry::Torus::updAs(g).setTorusRadius(S.R * fv[0]); ContactGeometry::Torus::updAs(g).setTubeRadius(S.r * fv[1]); }
+        };
+        std::unique_ptr<ContactGeometry> fresh(ctor(0)), hist;
+        try {
+            if (h == 0) { hist.reset(ctor(1)); set(*hist, 0); }
+            else if (h == 1) { hist.reset(ctor(0)); set(*hist, 1); set(*hist, 0); }
+            else if (h == 2) { std::unique_ptr<ContactGeometry> src(ctor(1)); hist.reset(new ContactGeometry(*src)); set(*hist, 0); }
+            else { hist.reset(ctor(1)); set(*hist, 2); set(*hist, 0); }
+        } catch (const std::exception& e) { run.violation("setter-history-exception/" + S.kind, std::string(e.what()) + " at " + where(), rp()); return; }
+        // the battery: (label, values) pairs; exceptions and NaN are values too
+        typedef std::vector<std::pair<std::string, std::vector<double>>> Battery;
+        const std::vector<Vec3>& Q = queryLattice(S, thorough, seed);
+        auto battery = [&](const ContactGeometry& g) {
+            Battery B;
+            auto put = [&](const std::string& op, const std::function<void(std::vector<double>&)>& f) {
+                std::vector<double> v; try { f(v); } catch (const std::exception&) { v.assign(1, 12345.678); } B.emplace_back(op, v); };
+            auto pv = [](std::vector<double>& v, const Vec3& x) { v.push_back(x[0]); v.push_back(x[1]); v.push_back(x[2]); };
+            put("getBoundingSphere", [&](std::vector<double>& v) { Vec3 c; Real r; g.getBoundingSphere(c, r); pv(v, c); v.push_back(r); });
+            for (size_t i = 0; i < Q.size(); i += 5) { const Vec3 q = Q[i];
+                put("findNearestPoint", [&](std::vector<double>& v) { bool in; UnitVec3 n; Vec3 p = g.findNearestPoint(q, in, n); pv(v, p); v.push_back(in); pv(v, Vec3(n)); });
+                if (S.smooth) {
+                    put("calcSurfaceValue", [&](std::vector<double>& v) { v.push_back(g.calcSurfaceValue(q)); });
+                    put("calcSurfaceGradient", [&](std::vector<double>& v) { pv(v, g.calcSurfaceGradient(q)); });
+                }
+                if (S.kind == "Ellipsoid" && q.norm() > 0)
+                    put("findPointInSameDirection", [&](std::vector<double>& v) { pv(v, ContactGeometry::Ellipsoid::getAs(g).findPointInSameDirection(q)); });
+            }
+            if (S.smooth) for (const Vec3& p : S.surfPts) {
+                put("calcSurfaceUnitNormal", [&](std::vector<double>& v) { pv(v, Vec3(g.calcSurfaceUnitNormal(p))); });
+                put("calcSurfacePrincipalCurvatures", [&](std::vector<double>& v) { Vec2 k; Rotation R; g.calcSurfacePrincipalCurvatures(p, k, R); v.push_back(k[0]); v.push_back(k[1]); pv(v, Vec3(R.x())); pv(v, Vec3(R.z())); });
+                if (S.kind != "Torus") put("calcCurvature", [&](std::vector<double>& v) { Vec2 k; Rotation R; g.calcCurvature(p, k, R); v.push_back(k[0]); v.push_back(k[1]); pv(v, Vec3(R.x())); pv(v, Vec3(R.z())); });
+                put("calcGaussianCurvature", [&](std::vector<double>& v) { v.push_back(g.calcGaussianCurvature(p)); });
+                put("calcSurfaceCurvatureInDirection", [&](std::vector<double>& v) { Vec3 n(g.calcSurfaceUnitNormal(p)); Vec3 t = std::abs(n[0]) < 0.7 ? Vec3(1, 0, 0) : Vec3(0, 1, 0); t -= n * dot(t, n); v.push_back(g.calcSurfaceCurvatureInDirection(p, UnitVec3(t))); });
+                if (S.kind == "Ellipsoid") {
+                    const ContactGeometry::Ellipsoid& e = ContactGeometry::Ellipsoid::getAs(g);
+                    put("findUnitNormalAtPoint", [&](std::vector<double>& v) { pv(v, Vec3(e.findUnitNormalAtPoint(p))); });
+                    put("findParaboloidAtPoint", [&](std::vector<double>& v) { Transform X; Vec2 k; e.findParaboloidAtPoint(p, X, k); v.push_back(k[0]); v.push_back(k[1]); pv(v, X.p()); pv(v, Vec3(X.R().x())); pv(v, Vec3(X.R().z())); });
+                }
+            }
+            for (const Vec3& d0 : dirs) { const Vec3 d = d0 / d0.norm();
+                if (g.isConvex() && !(S.kind == "Cylinder")) put("calcSupportPoint", [&](std::vector<double>& v) { pv(v, g.calcSupportPoint(UnitVec3(d))); });
+                if (S.kind == "Ellipsoid") put("findPointWithThisUnitNormal", [&](std::vector<double>& v) { pv(v, ContactGeometry::Ellipsoid::getAs(g).findPointWithThisUnitNormal(UnitVec3(d))); });
+                for (int o = 0; o < 2; ++o) { const Vec3 org = o == 0 ? Vec3(-2.3 * S.ext[0], 0.21 * S.ext[1], -0.17 * S.ext[2]) - 3 * S.scale * d : Vec3(0.11 * S.ext[0], -0.07 * S.ext[1], 0.05 * S.ext[2]);
+                    put("intersectsRay", [&](std::vector<double>& v) { Real dist = -7.25; UnitVec3 n(Vec3(0.6, 0, 0.8), true); bool hit = g.intersectsRay(org, UnitVec3(d), dist, n); v.push_back(hit); v.push_back(dist); pv(v, Vec3(n)); }); }
+            }
+            return B;
+        };
+        const Battery bf = battery(*fresh), bh = battery(*hist);
+        run.evaluation(verif::hashStr(S.name + std::to_string(seed) + "/setters/" + histNames[h]), true);
+        if (bf.size() != bh.size()) { run.harnessError("setter batteries differ in length"); return; }
+        std::map<std::string, double> worst; std::map<std::string, int> nOps; uint64_t oh = 0;
+        for (size_t i = 0; i < bf.size(); ++i) {
+            double w = 0;
+            if (bf[i].second.size() != bh[i].second.size()) w = INFINITY;
+            else for (size_t j = 0; j < bf[i].second.size(); ++j) { const double a = bf[i].second[j], b = bh[i].second[j];
+                if (std::isnan(a) && std::isnan(b)) continue; if (a == b) continue;
+                const double e = std::abs(a - b); w = std::max(w, std::isnan(e) ? INFINITY : e); oh = verif::hashPod(a, oh); }
+            worst[bf[i].first] = std::max(worst[bf[i].first], w); ++nOps[bf[i].first];
+        }
+        for (auto& kv : worst) { const std::string op = kv.first; const double w = kv.second;
+            run.expect(w == 0, "after-setters-differs-from-freshly-constructed/" + S.kind + "." + op, [&] { return op + " differs by " + sd(w) + " between the object reached through the setter history and one constructed with the same parameters: " + where(); }, rp);
+            run.count("setter-battery-queries:" + op, nOps[op]); }
+        run.outcome(verif::hashStr(S.kind, oh));
+        run.sample(where() + " -> " + std::to_string(bf.size()) + " queries compared");
+    });
+    mark("setters");
     run.extraCoverage["section_wall_s"] = sectionWall + "}";
 
     return run.finish();
